@@ -8,11 +8,11 @@ VERIF = os.path.dirname(HERE)
 CLAIMED = {
  "C01": dict(technique="Kani contracts: round/diagonalize leaf contracts per backend; core wiring (refill, refill4, refill_rounds) through the real dispatch with round as uninterpreted function; Buffer invariant + try_apply_keystream contract per shape; new() contracts per type",
              text="Keystream == ChaCha specification: leaf contract of guts::round per backend (full domain), spec lemma standard double round == row formulation, wiring of every core entry point against the specification for symbolic key/nonce/64-bit counter on every dispatch arm, XOR/frame contract of try_apply_keystream from an arbitrary invariant state, and the initial state of all 7 cipher types (HChaCha for XChaCha).",
-             note="Bounded in per-call length only (<= 448 bytes per shape; quick: boundary shapes and drounds subset, thorough: dense grid, all drounds 0..=10). Trusted: Kani/CBMC, instruction and CPUID models, the uninterpreted-function rule (DESIGN.md 3.2).",
+             note="Bounded in per-call length only (BOUNDED: <= 512 bytes per shape, not counted as proved beyond it; quick: boundary shapes and drounds subset, thorough: dense grid, all drounds 0..=10). Trusted: Kani/CBMC, instruction and CPUID models, the uninterpreted-function rule (DESIGN.md 3.2).",
              ref="DESIGN.md 4 C01"),
  "C02": dict(technique="Kani contracts: representation invariant Inv(P) on Buffer; try_apply_keystream / try_seek (7 integer types) / try_current_pos contracts from an arbitrary Inv state; Verus induction over histories (verus/history.rs)",
              text="Every operation is proved from an arbitrary state satisfying the representation invariant (symbolic counter incl. exhausted and fresh states, symbolic buffer, lazily pending block), so every history is covered by induction over operations; panics and overflow are checked in the same obligations.",
-             note="apply is proved per (buffer fill, length) shape, length <= 448; seek/current_pos are loop-free and full domain. refill/refill4 replaced by their contracts (proved under C01).",
+             note="apply is proved per (buffer fill, length) shape, length <= 512 (BOUNDED in per-call length, histories unbounded); seek/current_pos are loop-free and full domain. refill/refill4 replaced by their contracts (proved under C01).",
              ref="DESIGN.md 4 C02/C11"),
  "C11": dict(technique="Kani contracts (same obligations as C02 read at the limits): Ok iff the request ends within 2^38 / 2^70 bytes, atomic error, seek-to-limit, nonce word frame; Verus induction over histories (verus/history.rs)",
              text="Exhaustion: Ok iff position+length <= limit, error leaves data, position and invariant unchanged, seek past the end is an error, the IETF nonce word is never disturbed by the counter.",
